@@ -1,5 +1,6 @@
 import Hgxv.Model.Wire
 import Hgxv.Model.C14
+import Hgxv.Model.C14Raw
 /-! Line protocol for C14.  State: the loaded hypergraph (argument of the next call).
   `load <weighted> <nodes> <edges natss> <weights> <mds>`                        -> `ok`
   `random <n> <sizes> <counts> <groups natsss>`                                    -> HG | `rej`
@@ -11,6 +12,14 @@ import Hgxv.Model.C14
   `scalefree <n> <sizes> <counts ints> <scale keys> <corr 0/1> <target|none> <shuffles> <groups>` -> HG ` ret ` 0/1 | `rej`
   `obj <all_orders 0/1> <inplace>`   -> `none` | `same` | `fresh` (object that carries the result of a call on the loaded one)
   `hoad <N> <time> <orders> <acts ratss> <coins rats> <flags> <samples natss>`         -> natss (t,nodes..) | `raised` | `stuck`
+  commands ending in `R` take their numeric arguments as VALUE-TYPED tokens (`Num`): `i<int>` int / numpy int,
+  `b0|b1` bool, `q<num>/<den>` a real of any type with that exact value, `s<int>` / `sx` text that `int()` parses / refuses:
+  `randomR <n num> <sizes nums> <counts nums> <groups>`                                -> HG | `rej`
+  `scalefreeR <n num> <sizes nums> <counts nums> <scale keys> <corr> <target|none> <shuffles num> <groups>` -> HG ` ret ` 0/1 | `rej`
+  `addedgeR <inplace> <order num|-> <size num|-> <draw>`                                -> CALL | `rej`
+  `addedgesR <inplace> <k num> <order num|-> <size num|-> <draws>`                      -> CALL ` ret ` 0/1 | `rej`
+  `shuffleR <inplace> <order|-1> <size|-1> <p num> <preserve> <idx> <choices>`          -> as `shuffle`
+  `hoadR <N num> <time num> <orders nums> <acts> <coins> <flags> <samples>`             -> as `hoad`
  HG   = `<weighted> <sorted nodes> <hyperedges sorted> <weights> <metadata tokens>` (5 tokens)
  CALL = `A ` HG ` R ` (HG | `none`) -/
 open Wire C14
@@ -38,6 +47,25 @@ def zip3 (a : List Edge) (b c : List Nat) : List (Edge × Rec) := a.zip (b.zip c
 def mkDraws : List Rat → List Nat → List (List Nat) → List HoadDraw
   | c :: cs, f :: fs, s :: ss => { coin := c, sampled := f != 0, sample := s } :: mkDraws cs fs ss
   | _, _, _ => []
+
+def num? (s : String) : Option Num :=
+  match s.toList with
+  | 'i' :: r => (String.ofList r).toInt?.map Num.int
+  | ['b', '0'] => some (Num.bool false)
+  | ['b', '1'] => some (Num.bool true)
+  | 'q' :: r =>
+    match (String.ofList r).splitOn "/" with
+    | [a, b] =>
+      match a.toInt?, b.toNat? with
+      | some n, some d => if d = 0 then none else some (Num.real n (d - 1))
+      | _, _ => none
+    | _ => none
+  | ['s', 'x'] => some (Num.text none)
+  | 's' :: r => (String.ofList r).toInt?.map (fun i => Num.text (some i))
+  | _ => none
+def nums? (s : String) : Option (List Num) := listOf? "," "-" num? s
+/-- `-` = the argument was not passed -/
+def optNum? (s : String) : Option (Option Num) := if s == "-" then some none else (num? s).map some
 
 def step (h : HG) : List String → HG × String
   | ["load", w, nodes, edges, ws, mds] =>
@@ -99,6 +127,52 @@ def step (h : HG) : List String → HG × String
             | some r => showHG r ++ " ret " ++ showBool (sfReturned (s.zip (c.map Int.toNat)) g)
             | none => "rej")
     | _, _, _, _, _, _ => (h, "bad-op")
+  | ["randomR", n, sizes, counts, groups] =>
+    match num? n, nums? sizes, nums? counts, natsss? groups with
+    | some n, some s, some c, some g =>
+      (h, match randomHypergraphRaw? n s c g with | some r => showHG r | none => "rej")
+    | _, _, _, _ => (h, "bad-op")
+  | ["scalefreeR", n, sizes, counts, skeys, corr, target, shuf, groups] =>
+    match num? n, nums? sizes, nums? counts, nats? skeys, num? shuf, natsss? groups with
+    | some n, some s, some c, some sk, some sh, some g =>
+      let tgt : Option (Option Rat) := if target == "none" then some none else (rat? target).map some
+      match tgt with
+      | none => (h, "bad-op")
+      | some tgt =>
+        (h, match scaleFreeRaw n s c sk (corr == "1") tgt sh g, optAll Num.toInt c with
+            | some r, some cs => showHG r ++ " ret " ++ showBool (sfReturned ((cs.map Int.toNat).zip (cs.map Int.toNat)) g)
+            | _, _ => "rej")
+    | _, _, _, _, _, _ => (h, "bad-op")
+  | ["addedgeR", inpl, order, size, draw] =>
+    match optNum? order, optNum? size, nats? draw with
+    | some o, some s, some d => (h, showCall (addRandomEdgeRaw h o s (inpl == "1") d))
+    | _, _, _ => (h, "bad-op")
+  | ["addedgesR", inpl, k, order, size, draws] =>
+    match num? k, optNum? order, optNum? size, natss? draws with
+    | some k, some o, some s, some d =>
+      (h, match addRandomEdgesRaw h k o s (inpl == "1") d, k.loopCount with
+          | some r, some kc => showCall (some r) ++ " ret " ++ showBool (consumedExactly kc [] d)
+          | _, _ => "rej")
+    | _, _, _, _ => (h, "bad-op")
+  | ["shuffleR", inpl, order, size, p, pres, idx, choices] =>
+    match num? p, nats? idx, natss? choices with
+    | some p, some idx, some cs =>
+      let r := randomShuffleRaw h (optArg order) (optArg size) (inpl == "1") p idx cs
+      match r, resolveSize (optArg order) (optArg size), p.value with
+      | some _, some s, some (pn, pd) =>
+        let cur := edgesOfSize h s
+        (h, showCall r ++ " P " ++ showNats (pool cur idx) ++ " " ++ showNats (poolWeights cur idx (pres == "1"))
+            ++ " " ++ toString (numToRandomize pn.toNat pd cur.length))
+      | _, _, _ => (h, "rej")
+    | _, _, _ => (h, "bad-op")
+  | ["hoadR", bigN, time, orders, acts, coins, flags, samples] =>
+    match num? bigN, num? time, nums? orders, ratss? acts, rats? coins, nats? flags, natss? samples with
+    | some bigN, some t, some o, some a, some c, some f, some s =>
+      (h, match hoadRaw bigN t (o.zip a) (mkDraws c f s) with
+          | .done out => showNatss (sortLex (out.map (fun r => r.1 :: r.2)))
+          | .raised _ => "raised"
+          | .stuck => "stuck")
+    | _, _, _, _, _, _, _ => (h, "bad-op")
   | ["obj", allo, inpl] =>
     -- the loaded hypergraph is the live object 1; which object carries the result of a call on it
     let r := if allo == "1" then finishObjAll [(1, h)] 1 (inpl == "1") h else finishObj [(1, h)] 1 (inpl == "1") h
